@@ -350,6 +350,51 @@ fn indent_probe(out: &mut Out) {
     }
 }
 
+/* ------------- `parse_datetime` against its panic-site-explicit mirror (`np-datetime` requests) ------------- */
+
+fn datetime_cases(seed: u64, n: u64, out: &mut Out) {
+    use cedar_policy_core::ast::Expr;
+    let mut r = Rng::new(seed ^ 0xDA7E);
+    let ents = cedar_policy_core::entities::Entities::new();
+    let q = cedar_policy_core::ast::Request::new_unchecked(
+        cedar_policy_core::ast::EntityUIDEntry::unknown(), cedar_policy_core::ast::EntityUIDEntry::unknown(),
+        cedar_policy_core::ast::EntityUIDEntry::unknown(), None);
+    let ev = cedar_policy_core::evaluator::Evaluator::new(q, &ents, cedar_policy_core::extensions::Extensions::all_available());
+    let mut one = |s: &str, tag: &str, out: &mut Out| {
+        let e = Expr::call_extension_fn(gen::name("datetime"), vec![Expr::val(s)]);
+        let req = format!("(np-datetime {})", sx::qs(s));
+        match catch_unwind(AssertUnwindSafe(|| ev.interpret(&e, &std::collections::HashMap::new()))) {
+            Ok(Ok(v)) => out.line(req, format!("(np-datetime {})", sx::value(&v)), format!("{tag} datetime({})", sx::qs(s))),
+            Ok(Err(_)) => out.line(req, "(np-datetime err)".into(), format!("{tag} datetime({})", sx::qs(s))),
+            Err(_) => {
+                out.line(req, "(np-datetime panic)".into(), format!("{tag} datetime({})", sx::qs(s)));
+                out.propfail("panic in datetime()", &format!("family=expr input text:datetime({})", sx::qs(s)), &LAST_PANIC.with(|l| l.borrow().clone()));
+            }
+        }
+        out.count("np_datetime.cases");
+    };
+    let mut bases: Vec<&str> = gen::DATETIMES_OK.to_vec();
+    bases.extend_from_slice(gen::DATETIMES_BAD);
+    bases.extend_from_slice(&["9999-12-31T23:59:59.999-2359", "0000-01-01T00:00:00.000+2359", "2024-01-01T23:59:59.999+0000", "2024-01-01T00:00:00.999Z",
+        "2024-01-01T99:99:99Z", "2024-01-01T00:00:00+9999", "2024-01-01T00:00:00-2360", "9999-99-99", "0000-00-00", "2024-01-01\u{e9}", "2024-01-01T00:00:00\u{1F600}",
+        "2024-01-01T00:00:00.\u{663}00Z", "\u{662}024-01-01", "2024-01-01T00:00:00.000", "2024-01-01T00:00:00.0000Z", "2024-01-01TT00:00:00Z"]);
+    for b in &bases { one(b, "fixed", out); }
+    let ins = ['0', '9', '5', '-', '+', ':', '.', 'T', 'Z', ' ', '\u{e9}', '\u{1F600}', '\u{663}', 'z', 't'];
+    for _ in 0..n {
+        let mut cs: Vec<char> = r.pick(&bases).chars().collect();
+        let k = 1 + r.below(2);
+        for _ in 0..k {
+            match r.below(3) {
+                0 if !cs.is_empty() => { let i = r.below(cs.len()); cs.remove(i); }
+                1 if !cs.is_empty() => { let i = r.below(cs.len()); cs[i] = *r.pick(&ins); }
+                _ => { let i = r.below(cs.len() + 1); cs.insert(i, *r.pick(&ins)); }
+            }
+        }
+        let s: String = cs.into_iter().collect();
+        one(&s, "mut", out);
+    }
+}
+
 /* ------------------------------- worker / parent ------------------------------- */
 
 fn worker(args: &Args, out: &mut Out, lo: u64, hi: u64) {
@@ -372,6 +417,7 @@ fn worker(args: &Args, out: &mut Out, lo: u64, hi: u64) {
     }
     if lo == 0 && one.is_none() {
         like_cases(args.seed, if args.thorough { 20000 } else { 3000 }, out);
+        datetime_cases(args.seed, if args.thorough { 30000 } else { 4000 }, out);
         if_true_probe(out);
         indent_probe(out);
     }
